@@ -52,22 +52,23 @@ theorem HNone_nil (opts : Options) : HNone opts [] := by
   unfold Stream.readHeader
   rw [readHeader_eq]
 
-/-- **Layer A: one `write` in Header state.**  Either the header is fatally wrong
-(then the one-shot decoder fails on every continuation), or everything was staged
-and more data is needed, or the stream entered the Data state having accepted `n`
-bytes, and the one-shot decoder on the whole input is the one-shot tail of the new
-state on the rest. -/
-theorem stream_header_equiv {st : Stream} (hs : st.state = some .header)
-    (hopt : st.options.allowIncomplete = false) (hno : HNone st.options st.tmp)
-    {data : Bytes} (hdne : data ≠ []) (snk : Sink) :
+/-- Layer A, detailed form: as `stream_header_equiv`, and on entering the Data state
+the new `RunState` is the one `read_header` builds from the whole input, nothing is
+staged in `partial_input_buf`, at most 8 bytes stay in `tmp`, and what is left of the
+input is exactly what follows the `NN` header bytes. -/
+theorem stream_header_equiv' {st : Stream} (hs : st.state = some .header)
+    (hno : HNone st.options st.tmp) {data : Bytes} (hdne : data ≠ []) (snk : Sink) :
     (∃ e, st.write data snk = (snk, .error e) ∧
       ∀ G snk', IsErr (toUnit (lzmaDecompress ⟨st.tmp ++ data ++ G, false⟩ st.options snk'))) ∨
     (∃ st', st.write data snk = (snk, .ok (st', data.length)) ∧ st'.state = some .header ∧
       st'.tmp = st.tmp ++ data ∧ st'.options = st.options ∧ HNone st.options (st.tmp ++ data)) ∨
     (∃ st' n rs, st.write data snk = (snk, .ok (st', n)) ∧ 0 < n ∧ n ≤ data.length ∧
       DataInv st' rs ∧ st'.options = st.options ∧
-      ∀ G snk', Veq (toUnit (lzmaDecompress ⟨st.tmp ++ data ++ G, false⟩ st.options snk'))
-        (sfin st' rs (data.drop n ++ G) snk')) := by
+      (∀ G snk', Veq (toUnit (lzmaDecompress ⟨st.tmp ++ data ++ G, false⟩ st.options snk'))
+        (sfin st' rs (data.drop n ++ G) snk')) ∧
+      rs.decoder.partialBuf = [] ∧ st'.tmp.length ≤ 8 ∧
+      ∀ G, Stream.readHeader ⟨st.tmp ++ data ++ G, false⟩ st.options =
+        .ok (some rs, ⟨st'.tmp ++ data.drop n ++ G, false⟩)) := by
   obtain ⟨r0, hr0⟩ := hno
   have hPlen := srh_none hr0
   have hNN := NN_bounds st.options
@@ -90,7 +91,7 @@ theorem stream_header_equiv {st : Stream} (hs : st.state = some .header)
       obtain ⟨hlen, rfl, happ⟩ := srh_some h
       obtain ⟨e1, e2, e3⟩ := enter_data h
       refine ⟨{ st with tmp := (st.tmp ++ data.take k).drop (NN st.options), state := some (.data rs) },
-        k, rs, ?_, hkpos, hkle, ⟨rfl, e1, .inr e2, .inl (by rw [e2]; decide), hopt⟩, rfl, ?_⟩
+        k, rs, ?_, hkpos, hkle, ⟨rfl, e1, .inr e2, .inl (by rw [e2]; decide)⟩, rfl, ?_, e2, ?_, ?_⟩
       · simp only [Rd.ofBytes, h]
       · intro G snk'
         rw [hcat G]
@@ -98,6 +99,13 @@ theorem stream_header_equiv {st : Stream} (hs : st.state = some .header)
         unfold sfin
         rw [e2, List.append_nil]
         exact this
+      · show ((st.tmp ++ data.take k).drop (NN st.options)).length ≤ 8
+        rw [List.length_drop, List.length_append, List.length_take]
+        omega
+      · intro G
+        rw [hcat G]
+        have := happ (data.drop k ++ G)
+        rw [this, List.append_assoc]
     · right; left
       have hl := srh_none h
       rw [List.length_append, List.length_take] at hl
@@ -120,7 +128,7 @@ theorem stream_header_equiv {st : Stream} (hs : st.state = some .header)
       have hn : data.length - (data.drop (NN st.options)).length = NN st.options := by
         rw [List.length_drop]; omega
       refine ⟨{ st with state := some (.data rs) }, NN st.options, rs, ?_, by omega, hlen,
-        ⟨rfl, e1, .inr e2, .inl (by rw [e2]; decide), hopt⟩, rfl, ?_⟩
+        ⟨rfl, e1, .inr e2, .inl (by rw [e2]; decide)⟩, rfl, ?_, e2, ?_, ?_⟩
       · simp only [Rd.ofBytes, h, hn]
       · intro G snk'
         have := e3 G snk'
@@ -128,6 +136,13 @@ theorem stream_header_equiv {st : Stream} (hs : st.state = some .header)
         show Veq _ (rfin rs (st.tmp ++ rs.decoder.partialBuf ++ (data.drop (NN st.options) ++ G)) snk')
         rw [htmp, e2, List.nil_append, List.nil_append]
         exact this
+      · show st.tmp.length ≤ 8
+        rw [htmp]; decide
+      · intro G
+        show Stream.readHeader ⟨st.tmp ++ data ++ G, false⟩ st.options =
+          .ok (some rs, ⟨st.tmp ++ data.drop (NN st.options) ++ G, false⟩)
+        rw [htmp, List.nil_append, List.nil_append]
+        exact happ G
     · right; left
       have hl := srh_none h
       have hmin : min data.length 18 = data.length := by omega
@@ -139,6 +154,27 @@ theorem stream_header_equiv {st : Stream} (hs : st.state = some .header)
       · simp only [Rd.ofBytes, h]
       · rw [htmp, List.nil_append]
         exact oneshot_err_of_not_some snk' (srh_err h _)
+
+/-- **Layer A: one `write` in Header state.**  Either the header is fatally wrong
+(then the one-shot decoder fails on every continuation), or everything was staged
+and more data is needed, or the stream entered the Data state having accepted `n`
+bytes, and the one-shot decoder on the whole input is the one-shot tail of the new
+state on the rest. -/
+theorem stream_header_equiv {st : Stream} (hs : st.state = some .header)
+    (_hopt : st.options.allowIncomplete = false) (hno : HNone st.options st.tmp)
+    {data : Bytes} (hdne : data ≠ []) (snk : Sink) :
+    (∃ e, st.write data snk = (snk, .error e) ∧
+      ∀ G snk', IsErr (toUnit (lzmaDecompress ⟨st.tmp ++ data ++ G, false⟩ st.options snk'))) ∨
+    (∃ st', st.write data snk = (snk, .ok (st', data.length)) ∧ st'.state = some .header ∧
+      st'.tmp = st.tmp ++ data ∧ st'.options = st.options ∧ HNone st.options (st.tmp ++ data)) ∨
+    (∃ st' n rs, st.write data snk = (snk, .ok (st', n)) ∧ 0 < n ∧ n ≤ data.length ∧
+      DataInv st' rs ∧ st'.options = st.options ∧
+      ∀ G snk', Veq (toUnit (lzmaDecompress ⟨st.tmp ++ data ++ G, false⟩ st.options snk'))
+        (sfin st' rs (data.drop n ++ G) snk')) := by
+  rcases stream_header_equiv' hs hno hdne snk with h | h | ⟨st', n, rs, h1, h2, h3, h4, h5, h6, _⟩
+  · exact .inl h
+  · exact .inr (.inl h)
+  · exact .inr (.inr ⟨st', n, rs, h1, h2, h3, h4, h5, h6⟩)
 
 /-! ## the `feed` loop in Header state -/
 
@@ -163,7 +199,7 @@ def FeedHPost (st : Stream) (data : Bytes) (snk : Sink) (res : Sink × Stream ×
 
 theorem feed_header (hN : Need20) (f : Nat) (st : Stream) (data : Bytes) (acc : Nat) (snk : Sink)
     (res : Sink × Stream × Except Err Nat) (hs : st.state = some .header)
-    (hopt : st.options.allowIncomplete = false) (hno : HNone st.options st.tmp)
+    (hno : HNone st.options st.tmp)
     (hlen : data.length < f) (hfeed : Stream.feed f st data acc snk = res) :
     FeedHPost st data snk res := by
   cases f with
@@ -179,8 +215,8 @@ theorem feed_header (hN : Need20) (f : Nat) (st : Stream) (data : Bytes) (acc : 
     · rw [if_neg hemp] at hfeed
       have hdne : data ≠ [] := fun h => hemp (by rw [h]; rfl)
       have hdpos : 0 < data.length := List.length_pos_iff.mpr hdne
-      rcases stream_header_equiv hs hopt hno hdne snk with
-        ⟨e, hw, herr⟩ | ⟨st', hw, h1, h2, h3, h4⟩ | ⟨st', n, rs, hw, hn0, hnle, hD, ho, hV⟩
+      rcases stream_header_equiv' hs hno hdne snk with
+        ⟨e, hw, herr⟩ | ⟨st', hw, h1, h2, h3, h4⟩ | ⟨st', n, rs, hw, hn0, hnle, hD, ho, hV, _⟩
       · rw [writeS_of_err hw] at hfeed
         simp only at hfeed
         subst hfeed
@@ -238,7 +274,7 @@ theorem header_run_partial (hN : Need20) : ∀ (cs : List Bytes) (st : Stream) (
     intro st snk hs hopt hno hne
     rw [List.flatten_cons, ← List.append_assoc] at hne ⊢
     rcases hf : Stream.feed (c.length + 1) st c 0 snk with ⟨k, st1, r⟩
-    have hp := feed_header hN _ st c 0 snk _ hs hopt hno (Nat.lt_succ_self _) hf
+    have hp := feed_header hN _ st c 0 snk _ hs hno (Nat.lt_succ_self _) hf
     cases r with
     | error e =>
       rw [streamRunFrom_cons_err hf]
@@ -250,7 +286,7 @@ theorem header_run_partial (hN : Need20) : ∀ (cs : List Bytes) (st : Stream) (
       · have := ih st1 k h1 (by rw [ho]; exact hopt) (by rw [ho, h2]; exact h3) (by rw [h2]; exact hne)
         rw [h2, ho] at this
         exact this
-      · exact (data_run_partial hN cs st1 rs' k hD).trans (hV _).symm
+      · exact (data_run_partial hN cs st1 rs' k hD (by rw [ho]; exact hopt)).trans (hV _).symm
 
 end StreamEq
 end Lzma
